@@ -221,7 +221,8 @@ def evaluate__mod_operator(self: XPathToken, context: ta.ContextType = None) \
         raise self.error('XPTY0004', '2nd operand is an empty sequence')
     elif op2 == 0 and isinstance(op2, float):
         return math.nan
-    elif math.isinf(op2) and not math.isinf(op1) and op1 != 0:
+    elif isinstance(op2, float) and math.isinf(op2) and \
+            not (isinstance(op1, float) and math.isinf(op1)) and op1 != 0:
         return op1 if self.parser.version != '1.0' else math.nan
 
     try:
@@ -230,6 +231,8 @@ def evaluate__mod_operator(self: XPathToken, context: ta.ContextType = None) \
         return op1 % op2  # type: ignore[operator]
     except TypeError as err:
         raise self.error('FORG0006', err) from None
+    except OverflowError as err:
+        raise self.error('FOAR0002', err) from None
     except (ZeroDivisionError, decimal.InvalidOperation):
         raise self.error('FOAR0001') from None
 
